@@ -24,9 +24,12 @@
    one's length whenever the total happened to fit).
    C11_column_stack — vectors of r elements and r-row matrices are laid side by side: the result is r x (sum of the
    column counts) and entry (i, j) is found by walking the inputs subtracting their column counts (col_locate).
+   REFUSALS (C11_append_refuse_rank / _shape, C11_concatenate_refuse, C11_stack_refuse, C11_column_stack_refuse,
+   C11_vstack_refuse / C11_hstack_refuse / C11_dstack_refuse, C11_vstack_rank1_ragged): operands of different rank, inputs that differ off the joined axis, inputs of different
+   shapes for stack, different row counts for column_stack are answered with an error value, never joined.
    NOT YET PROVED (checked by the correspondence run): the promotion of rank-0 / mixed-rank inputs by hstack / dstack,
    and splits producing empty blocks (parts > axis length). *)
-From ArrRs Require Import Index Axis Split Join Join_proofs Broadcast_proofs Axis_proofs Split_proofs Append_proofs Stack_proofs.
+From ArrRs Require Import Index Axis Split Join Join_proofs Broadcast_proofs Axis_proofs Split_proofs Append_proofs Stack_proofs Join_refuse.
 
 Theorem C11_split_sizes : forall n parts, 0 < parts ->
   length (section_sizes n parts) = parts /\
@@ -183,6 +186,43 @@ Theorem C11_vstack_rank1_ragged : forall (T : Type) (d : T) (first : arr T) rest
   Forall (fun a => ndim a = 1) (first :: rest) -> In x rest -> shape x <> shape first ->
   vstack d (first :: rest) = Err EConcat.
 Proof. exact @vstack_rank1_ragged. Qed.
+
+Theorem C11_append_refuse_rank : forall (T : Type) (d : T) (a v : arr T) ax,
+  ax < ndim a -> ndim a <> ndim v -> append d a v (Some ax) = Err EParam.
+Proof. exact @append_refuse_rank. Qed.
+
+Theorem C11_append_refuse_shape : forall (T : Type) (d : T) (a v : arr T) ax, ax < ndim a -> ndim a = ndim v ->
+  remove_nth (shape a) ax <> remove_nth (shape v) ax -> append d a v (Some ax) = Err EParam.
+Proof. exact @append_refuse_shape. Qed.
+
+Theorem C11_concatenate_refuse : forall (T : Type) (d : T) (first : arr T) rest ax x y,
+  Forall (fun a => ax < ndim a) (first :: rest) -> In x (first :: rest) -> In y (first :: rest) ->
+  remove_nth (shape x) ax <> remove_nth (shape y) ax -> concatenate d (first :: rest) (Some ax) = Err EConcat.
+Proof. exact @concatenate_refuse. Qed.
+
+Theorem C11_stack_refuse : forall (T : Type) (d : T) (first : arr T) rest axis x y,
+  In x (first :: rest) -> In y (first :: rest) -> shape x <> shape y -> stack d (first :: rest) axis = Err EParam.
+Proof. exact @stack_refuse. Qed.
+
+Theorem C11_column_stack_refuse : forall (T : Type) (first : arr T) rest r tl_ x,
+  shape first = r :: tl_ -> Forall (fun a => ndim a = 1 \/ ndim a = 2) (first :: rest) ->
+  In x (first :: rest) -> nth 0 (shape x) 0 <> r -> column_stack (first :: rest) = Err EParam.
+Proof. exact @column_stack_refuse. Qed.
+
+Theorem C11_vstack_refuse : forall (T : Type) (d : T) (first : arr T) rest x y,
+  Forall (fun a => 1 <= ndim a) (first :: rest) -> In x (first :: rest) -> In y (first :: rest) ->
+  remove_nth (shape x) 0 <> remove_nth (shape y) 0 -> vstack d (first :: rest) = Err EConcat.
+Proof. exact @vstack_refuse. Qed.
+
+Theorem C11_hstack_refuse : forall (T : Type) (d : T) (first : arr T) rest x y,
+  Forall (fun a => 2 <= ndim a) (first :: rest) -> In x (first :: rest) -> In y (first :: rest) ->
+  remove_nth (shape x) 1 <> remove_nth (shape y) 1 -> hstack_spec d (first :: rest) = Err EConcat.
+Proof. exact @hstack_refuse. Qed.
+
+Theorem C11_dstack_refuse : forall (T : Type) (d : T) (first : arr T) rest x y,
+  Forall (fun a => 3 <= ndim a) (first :: rest) -> In x (first :: rest) -> In y (first :: rest) ->
+  remove_nth (shape x) 2 <> remove_nth (shape y) 2 -> dstack d (first :: rest) = Err EConcat.
+Proof. exact @dstack_refuse. Qed.
 
 Example C11_stack_nonvacuous :
   stack 0%Z [mk [1;2;3;4;5;6]%Z [2;3]; mk [7;8;9;10;11;12]%Z [2;3]] (Some 1) =
